@@ -2,6 +2,8 @@
 C12 — Delete removes only what it reports, and reports it exactly.
 -/
 import Klev.Proofs.Delete
+import Klev.Proofs.DeleteMultiOK
+import Klev.Proofs.Reach
 namespace Klev.C12
 
 /-- **Delete step.** On every log state satisfying the invariant, for every offset set:
@@ -37,7 +39,141 @@ theorem delete_twice_nothing (p : Params) (s s' s'' : Spec) (offs : List Int)
   rw [List.mem_filter] at hlive'
   simp [hd1] at hlive'
 
+open Helpers
+
+/-- **The quantifier "for all reachable log states".** After any history (publishes, deletes,
+reads, GC, reopens) from an empty directory opened with any options, for every offset set,
+`Delete` on the reached state keeps the invariant and satisfies `DeleteOK`. No hypothesis on
+the state. -/
+theorem delete_step_reachable (oo : OpenOpts) (ops : List Op) (offs : List Int) :
+    ∃ l0, Log.open [] oo = .ok l0 ∧
+      Inv ((runOps l0 ops).delete offs).1 ∧
+      Spec.DeleteOK (runOps l0 ops).opts.readonly (runOps l0 ops).opts.params
+        (abs (runOps l0 ops)) offs ((runOps l0 ops).delete offs).2
+        (abs ((runOps l0 ops).delete offs).1) := by
+  obtain ⟨l0, ho, hinv, _⟩ := Klev.reach_from_empty oo ops
+  exact ⟨l0, ho, Klev.delete_step (runOps l0 ops) hinv offs⟩
+
+/-- `delete_step` read as a case distinction: an error changes nothing; a success reports
+live requested messages (a sublist of the content: full original content, offset order),
+removes exactly them, keeps `NextOffset`, and the reported size lies between the sums of
+their storage sizes in the two file versions. -/
+theorem delete_cases (l : Log) (hinv : Inv l) (offs : List Int) :
+    Inv (l.delete offs).1 ∧
+    ((∃ e, (l.delete offs).2 = .err e ∧ abs (l.delete offs).1 = abs l) ∨
+     (∃ del sz, (l.delete offs).2 = .ok (del, sz) ∧ del.Sublist (abs l).live ∧
+        (∀ d ∈ del, d.off ∈ offs) ∧
+        (abs (l.delete offs).1).live = Spec.removeAll (abs l).live del ∧
+        (abs (l.delete offs).1).next = (abs l).next ∧
+        Spec.sumSizes .v1 l.opts.params del ≤ sz ∧ sz ≤ Spec.sumSizes .v2 l.opts.params del)) :=
+  Klev.delete_cases l hinv offs
+
+/-- `Delete` never changes the options of the handle. -/
+theorem delete_opts (l : Log) (offs : List Int) : (l.delete offs).1.opts = l.opts :=
+  Klev.delete_opts l offs
+
+/-! ### One `Delete` pass makes progress (what `DeleteOK` alone does not say) -/
+
+/-- **Which messages one `Delete` removes.** On a read-write log, when the lowest requested
+offset is the offset of a live message `m0`, `Delete` succeeds and reports *exactly* the
+requested records of the segment holding `m0` — all of them, in particular `m0`.
+(`DeleteOK` alone would allow the empty report.) -/
+theorem delete_target (l : Log) (hinv : Inv l) (hro : l.opts.readonly = false) (offs : List Int)
+    (hne : offs ≠ []) (m0 : Msg) (hm0 : m0 ∈ (abs l).live) (hoff : m0.off = minOff offs) :
+    ∃ (i : Nat) (hi : i < l.segs.length) (sz : Int), m0 ∈ (l.segs[i]).recs ∧
+      (l.delete offs).2 = .ok ((l.segs[i]).recs.filter (fun m => offs.contains m.off), sz) :=
+  Klev.delete_target l hinv hro offs hne m0 hm0 hoff
+
+/-- The lowest requested live message is always among the deleted ones. -/
+theorem delete_lowest (l : Log) (hinv : Inv l) (hro : l.opts.readonly = false) (offs : List Int)
+    (hne : offs ≠ []) (m0 : Msg) (hm0 : m0 ∈ (abs l).live) (hoff : m0.off = minOff offs) :
+    ∃ del sz, (l.delete offs).2 = .ok (del, sz) ∧ m0 ∈ del :=
+  Klev.delete_lowest l hinv hro offs hne m0 hm0 hoff
+
+/-- The report of one pass is downward closed among the requested live messages: with
+`m0 ∈ del` it is a non-empty initial run of them (offset sets "spanning several segments"
+are served one segment per pass, lowest first). -/
+theorem delete_run (l : Log) (hinv : Inv l) (hro : l.opts.readonly = false) (offs : List Int)
+    (hne : offs ≠ []) (m0 : Msg) (hm0 : m0 ∈ (abs l).live) (hoff : m0.off = minOff offs) :
+    ∃ del sz, (l.delete offs).2 = .ok (del, sz) ∧ m0 ∈ del ∧
+      ∀ d ∈ del, ∀ x ∈ (abs l).live, x.off ∈ offs → x.off ≤ d.off → x ∈ del :=
+  Klev.delete_run l hinv hro offs hne m0 hm0 hoff
+
+/-! ### Clause "DeleteMulti over a set of live offsets removes all of them" -/
+
+/-- **DeleteMulti, safety and completion.** For every log satisfying the invariant and every
+offset list (duplicates, dead and unassigned offsets allowed): the invariant is kept; the
+reported messages are exactly the messages removed (new content = old content minus them,
+`NextOffset` unchanged); each was live and requested; none is reported twice; the reported
+size is bracketed by the sums of their storage sizes — whether or not a pass failed. On a
+read-write log, when every requested offset is the offset of a live message, no pass fails
+and afterwards none of them is live. -/
+theorem deleteMulti_spec (l : Log) (h : Inv l) (offs : List Int) :
+    let r := Helpers.deleteMulti l offs
+    Inv r.1 ∧
+    ((abs r.1).live = Spec.removeAll (abs l).live r.2.msgs ∧ (abs r.1).next = (abs l).next ∧
+      (∀ d ∈ r.2.msgs, d ∈ (abs l).live ∧ d.off ∈ offs) ∧ r.2.msgs.Nodup ∧
+      Spec.sumSizes .v1 l.opts.params r.2.msgs ≤ r.2.size ∧
+      r.2.size ≤ Spec.sumSizes .v2 l.opts.params r.2.msgs) ∧
+    (l.opts.readonly = false → (∀ o ∈ offs, ∃ m ∈ (abs l).live, m.off = o) →
+      r.2.err = none ∧ ∀ m ∈ (abs r.1).live, m.off ∉ offs) :=
+  Klev.deleteMulti_spec l h offs
+
+/-- **Closed form of the completed case.** On a read-write log and a set of live offsets:
+no error; the new content is the old one with exactly the messages at a requested offset
+filtered out; the report is exactly those messages, in offset order. -/
+theorem deleteMulti_complete (l : Log) (h : Inv l) (hro : l.opts.readonly = false) (offs : List Int)
+    (hlive : ∀ o ∈ offs, ∃ m ∈ (abs l).live, m.off = o) :
+    let r := Helpers.deleteMulti l offs
+    Inv r.1 ∧ r.2.err = none ∧
+    (abs r.1).live = (abs l).live.filter (fun m => !offs.contains m.off) ∧
+    (abs r.1).next = (abs l).next ∧
+    (∀ d, d ∈ r.2.msgs ↔ d ∈ (abs l).live ∧ d.off ∈ offs) ∧
+    r.2.msgs = (abs l).live.filter (fun m => offs.contains m.off) :=
+  Klev.deleteMulti_complete l h hro offs hlive
+
+/-- `deleteMulti_spec` on every reachable state. -/
+theorem deleteMulti_spec_reachable (oo : OpenOpts) (ops : List Op) (offs : List Int) :
+    ∃ l0, Log.open [] oo = .ok l0 ∧
+      let l := runOps l0 ops
+      let r := Helpers.deleteMulti l offs
+      Inv r.1 ∧
+      ((abs r.1).live = Spec.removeAll (abs l).live r.2.msgs ∧ (abs r.1).next = (abs l).next ∧
+        (∀ d ∈ r.2.msgs, d ∈ (abs l).live ∧ d.off ∈ offs) ∧ r.2.msgs.Nodup ∧
+        Spec.sumSizes .v1 l.opts.params r.2.msgs ≤ r.2.size ∧
+        r.2.size ≤ Spec.sumSizes .v2 l.opts.params r.2.msgs) ∧
+      (l.opts.readonly = false → (∀ o ∈ offs, ∃ m ∈ (abs l).live, m.off = o) →
+        r.2.err = none ∧ ∀ m ∈ (abs r.1).live, m.off ∉ offs) := by
+  obtain ⟨l0, ho, hinv, _⟩ := Klev.reach_from_empty oo ops
+  exact ⟨l0, ho, Klev.deleteMulti_spec (runOps l0 ops) hinv offs⟩
+
+/-- A single `Delete`, in the shape shared with `DeleteMulti` (`Removed`): the resulting log
+is the old one with exactly the reported messages removed; they were live, requested, and
+distinct; invariant and options kept. Holds for the error outcomes too (nothing reported,
+nothing removed). Used by every `Trim*` / `Compact*` helper. -/
+theorem single_delete_removed (l : Log) (h : Inv l) (offs : List Int) :
+    Removed l (single (l.delete offs)).1 offs (single (l.delete offs)).2.msgs :=
+  Klev.single_delete_removed l h offs
+
+/-- "Find, then Delete / DeleteMulti" (`thenDelete`, the body of every `Trim*` and `Compact*`
+helper): what it removed is what it reports, in both modes, after a `Find*` that only
+loaded indexes. -/
+theorem thenDelete_removed (l l1 : Log) (hld : Loaded l l1) (multi : Bool) (offs : List Int) :
+    Removed l (thenDelete multi (l1, .ok offs)).1 offs (thenDelete multi (l1, .ok offs)).2.msgs :=
+  Klev.thenDelete_removed l l1 hld multi offs
+
 end Klev.C12
 
 #print axioms Klev.C12.delete_step
 #print axioms Klev.C12.delete_twice_nothing
+#print axioms Klev.C12.delete_step_reachable
+#print axioms Klev.C12.delete_cases
+#print axioms Klev.C12.delete_opts
+#print axioms Klev.C12.delete_target
+#print axioms Klev.C12.delete_lowest
+#print axioms Klev.C12.delete_run
+#print axioms Klev.C12.deleteMulti_spec
+#print axioms Klev.C12.deleteMulti_complete
+#print axioms Klev.C12.deleteMulti_spec_reachable
+#print axioms Klev.C12.single_delete_removed
+#print axioms Klev.C12.thenDelete_removed
